@@ -108,7 +108,9 @@ def domain_file(where, ag):
     funcs = " ".join(FUNC[f] for f in FUNC if ag in where[f])
     consts = " ".join(CONST[c] for c in CONST if ag in where[c])
     acts = "\n".join(ACT[a][0] for a in ACT if ag in where[a])
-    return (f"(define (domain mad)\n{REQ}\n{TYPES}\n" + (f"(:constants {consts})\n" if consts else "") +
+    # an agent file without functions declares a purely propositional domain
+    req = REQ if funcs else "(:requirements :typing :negative-preconditions)"
+    return (f"(define (domain mad)\n{req}\n{TYPES}\n" + (f"(:constants {consts})\n" if consts else "") +
             f"(:predicates {preds})\n" + (f"(:functions {funcs})\n" if funcs else "") + acts + ")\n")
 
 
@@ -175,6 +177,17 @@ def check_case(case):
             r.seen("states", digest((str(case["where"]), perm, dummy)))
             with GlobOrder(perm):
                 comb = guard(lambda: MultiAgentDomainsConverter(d).locate_domains(add_dummy_actions=dummy))
+                if not dummy:
+                    # one converter used twice (first with the dummy actions) must answer the second call like a fresh one
+                    reused = MultiAgentDomainsConverter(d)
+                    guard(lambda: reused.locate_domains(add_dummy_actions=True))
+                    again = guard(lambda: reused.locate_domains(add_dummy_actions=False))
+                    if isinstance(again, Raised) or isinstance(comb, Raised) or guard(vocab_lib, again) != guard(vocab_lib, comb):
+                        r.fail("converter-reuse", f"split {case['where']} order {perm}: a converter that was first asked for the "
+                               f"dummy actions answers a plain locate_domains() differently from a fresh converter: "
+                               f"{guard(vocab_lib, again) if not isinstance(again, Raised) else again}", "same as fresh",
+                               str(again)[:200], tags=tags)
+                        return r
             r.count("transitions")
             label = f"split {case['where']} order {perm} dummy={dummy}"
             if isinstance(comb, Raised):
